@@ -91,3 +91,40 @@ claim("C18", module="props.c18", category="proof",
       technique="contract-based: constructor post-conditions enumerated exhaustively over the finite families; forall-x "
                 "obligations on the real Calculate discharged by a rigorous interval branch-and-bound back end",
       design_ref="DESIGN.md 5.C18")
+
+claim("C10", module="props.c10", category="proof",
+      text="For every member of Hill, Shekel, Grishagin, Shekel4, StronginC3 (exhaustive) and Rastrigin/XSquared (dimension "
+           "1..5): the three clauses of the property are universally quantified obligations on the REAL Calculate, discharged by "
+           "executing it on outward-rounded intervals with branch and bound (constraints handled for StronginC3's feasible "
+           "set). GKLS (400 functions): structural contract on the generator state (exhaustive, exact values at all minimisers) "
+           "+ 3,600 ball-minimum lemmas by interval proof; the link between the polar form used there and the real splice code "
+           "is a bounded sample and is reported as such.",
+      note="trusted: own interval back end (pyvc/ival.py), libm within 4 ulp; Rastrigin/XSquared beyond dimension 5 argued from "
+           "the additive structure; GKLS polar-form link bounded (not counted as proof)",
+      technique="contract-based: forall-x post-conditions of the real Calculate discharged by a rigorous interval branch-and-bound "
+                "back end; finite families enumerated exhaustively",
+      design_ref="DESIGN.md 5.C10")
+claim("C14", module="props.c14", category="proof",
+      text="Structural contract of the GKLS generator evaluated on the state the real generator builds for each of the 400 "
+           "functions (exhaustive): minimisers in the box, non-overlapping balls, class distance/radius, values, uniqueness of "
+           "the global minimiser, exact prescribed value of the real Calculate at all 4,000 minimisers, bit-identical "
+           "regeneration; the generator pinned by Knuth's published check value and the repository's recorded value; "
+           "continuity as a polynomial identity; no nondeterministic source in the construction path (syntactic obligations). "
+           "The every-point clauses (paraboloid outside the balls, continuity of the real code) rest on a bounded sample link.",
+      note="finite-family enumeration is complete; interval/sympy trusted; the every-point clauses are linked to the real code by "
+           "sampling only (bounded stand-in, not counted)",
+      technique="contract-based: generator post-conditions enumerated exhaustively over the finite family; lemmas by interval "
+                "branch and bound / polynomial identity",
+      design_ref="DESIGN.md 5.C14")
+
+claim("C15", module="props.c15", category="proof",
+      text="Frame (write-effect) obligations generated from the AST of every shipped Calculate and of everything it calls "
+           "(GKLSFunction.Calculate/CalculateDFunction/GKLS_norm, GrishaginFunction.Calculate, ...): each store must target a "
+           "local, the supplied holder's value, or an object allocated in the same call; no write to self, class attributes, "
+           "module tables or the point; the supplied holder is returned; no nondeterministic primitive on the path. History "
+           "and cross-instance independence are the frame-rule consequence.",
+      note="decided by an own conservative syntactic effect analysis (not by the SMT back end): a flagged store is a failed "
+           "obligation; native history oracle attaches a failing input",
+      technique="contract-based: frame conditions (modifies = {functionValue.value} + fresh locals) checked on every path by a "
+                "write-effect analysis of the real AST",
+      design_ref="DESIGN.md 5.C15")
